@@ -141,6 +141,6 @@ def subchecks(tier):
     w = dict(common.full_profile().weights)
     w.update({"schedule": 0.4, "capacity": 0.4, "tracker": 0.0})
     prof = S.Profile(ALLOWED, weights=w, numeric="cont", max_nodes=3, max_classes=3, plans=("max_time",), horizon=(3.0, 14.0),
-                     budget=800, resumptions=(2, 5), excluded=common.KNOWN_EXCLUSIONS + ("slot_zero_first_arrival", "pause_busy_time_priority"))
+                     budget=800, resumptions=(2, 5), excluded=common.EXCL["C16"] + ("pause_busy_time_priority",))
     return [SubCheck("split", execute, strategy=S.netspec(prof), n={"quick": 4800, "thorough": 30000}, kind="metamorphic",
                      rule="unsplit vs split simulate_until_max_time of the same (spec, seed)")]
